@@ -65,6 +65,14 @@ Proof.
   apply Z.ltb_ge in E. apply sliced_safe; try lia. intros; cbn; auto.
 Qed.
 
+Lemma E2_transport_safe : forall b, safe (E2_transport Fixed b).
+Proof.
+  intros b. unfold E2_transport. destruct b as [|c r]; cbn [safe]; auto.
+  destruct ((c =? QUOTE) && (List.last (c :: r) 0 =? QUOTE)); cbn [safe]; auto.
+  cbn [guard]. destruct (zlen (c :: r) <? 2)%Z eqn:E; cbn [safe]; auto.
+  apply Z.ltb_ge in E. apply sliced_safe; try lia. intros; cbn; auto.
+Qed.
+
 (* ---------- E1 ---------- *)
 Lemma deser_rcpts_safe : forall l, safe (deser_rcpts Fixed l).
 Proof.
